@@ -13,6 +13,13 @@ CHECKS = {
                 ref="DESIGN.md section 4, C02"),
 }
 
+CHECKS["C04"] = dict(technique="property-based testing against a from-scratch quotient-ring reference (schoolbook products mod u^2+1, v^3-(u+1), w^2-v; Frobenius as q-power map)",
+                     note="Trusted: Python integers, reference tower (self-tested without the library), pinned wire byte order of tower elements.",
+                     ref="DESIGN.md section 4, C04")
+CHECKS["C05"] = dict(technique="property-based testing against an affine chord-and-tangent reference with constructed exceptional pairs (P+P, P+(-P), identities, z=1, other representatives)",
+                     note="Trusted: Python integers, reference group law (self-tested without the library).",
+                     ref="DESIGN.md section 4, C05")
+
 PENDING = {}
 
 
